@@ -133,6 +133,13 @@ Definition l1_eqv (s t : l1state) : Prop :=
   outputs s = outputs t ∧ proven s = proven t ∧ pairs s = pairs t ∧ batches s = batches t ∧
   regfee s = regfee t ∧ chans s = chans t ∧ admins s = admins t ∧ elog s = elog t ∧ plog s = plog t.
 
+(* states that agree on every ophost collection (they may differ in x/bank, the IBC keepers and
+   the ghost logs) *)
+Definition same_ophost (s t : l1state) : Prop :=
+  next_bridge t = next_bridge s ∧ configs t = configs s ∧ next_seq t = next_seq s ∧
+  next_out t = next_out s ∧ outputs t = outputs s ∧ proven t = proven s ∧ pairs t = pairs s ∧
+  batches t = batches s ∧ regfee t = regfee s.
+
 (* ---- the reachable-state invariant ---- *)
 (* the hash function returns 32 bytes (used for claim records and for l2 denoms) *)
 Definition hash_wf (c : cfg) : Prop :=
